@@ -46,6 +46,16 @@ TinyVP(cd, ss) ==
                        !.luma_offset = 0, !.luma_excursion = 255,
                        !.color_diff_offset = 128, !.color_diff_excursion = 255]
 
+(* a tiny format NONE of whose groups can be expressed by a base format default or a preset: frame size,    *)
+(* frame rate and clean area as TinyVP, plus a pixel aspect ratio, a signal range and three colour indices     *)
+(* that are no preset (and not what colour spec index 0 resets them to): every value of the sequence header    *)
+(* can only be coded EXPLICITLY, so a table entry for an explicit value decides whether there is a header      *)
+ExplicitVP ==
+  [TinyVP(0, 0) EXCEPT !.pixel_aspect_ratio_numer = 3, !.pixel_aspect_ratio_denom = 2,
+                       !.luma_offset = 1, !.luma_excursion = 1000,
+                       !.color_diff_offset = 2, !.color_diff_excursion = 500,
+                       !.color_primaries_index = 1, !.color_matrix_index = 2, !.transfer_function_index = 1]
+
 (* level = the level the configuration claims (1 = the synthetic level); sb_num / sb_den = picture_bytes / *)
 (* number of slices as a reduced fraction (low delay only; 24/2 = 12/1)                                   *)
 CfgL(level, name, vp, pcm, profile, wi, wiho, dd, ddho, sx, sy, frag, lossless, pb, cqm, sbn, sbd) ==
@@ -62,7 +72,8 @@ Cfgs == << Cfg("hq_lossy",     TinyVP(0, 0), 0, 3, 4, 4, 1, 0, 2, 1, 0, 0, 24, 0
            Cfg("hq_fields",    TinyVP(1, 1), 1, 3, 4, 4, 1, 0, 2, 1, 0, 1, 0, 0),
            Cfg("hq_fragments", TinyVP(0, 0), 0, 3, 4, 4, 1, 0, 2, 1, 1, 0, 24, 0),
            Cfg("hq_asym",      TinyVP(0, 0), 0, 3, 1, 1, 1, 1, 1, 1, 0, 1, 0, 0),
-           Cfg("hq_custom_qm", TinyVP(1, 0), 0, 3, 1, 1, 1, 0, 1, 2, 0, 0, 32, 1) >>
+           Cfg("hq_custom_qm", TinyVP(1, 0), 0, 3, 1, 1, 1, 0, 1, 2, 0, 0, 32, 1),
+           Cfg("hq_explicit",  ExplicitVP,   0, 3, 4, 4, 1, 0, 2, 1, 0, 1, 0, 0) >>
 
 FT(c) == [profile |-> c.profile, wavelet_index |-> c.wavelet_index, dwt_depth |-> c.dwt_depth,
           dwt_depth_ho |-> c.dwt_depth_ho, slices_x |-> c.slices_x, slices_y |-> c.slices_y,
@@ -215,16 +226,26 @@ KnownValue(key, c) ==
   ELSE IF key = "dwt_depth_ho" THEN c.dwt_depth_ho
   ELSE 0     \* minor_version; feature keys of the other profile
 
+(* kind "empty": the entry is the EMPTY set, i.e. NO value is allowed (a blank cell of the csv) - not "any *)
+(* value".  For a value key this is the table "the custom flag may be set (and index 0 used) but there is no *)
+(* value you may code": a format that needs the value coded explicitly has no header.  Offered for every key *)
+(* the sequence-header design consults and every derived (feature) key.  Not offered for the two asym        *)
+(* transform flags (decide_extended_transform_flag reads an empty entry as "FALSE allowed" by design, see     *)
+(* EtpFlag) nor for the never-consulted UncheckedUnknown keys (nothing new to learn beyond the named          *)
+(* deviation).                                                                                               *)
+EtpFlagKeys == {"asym_transform_index_flag", "asym_transform_flag"}
 Kinds(key) ==
-  IF key \in FlagKeys THEN {"true", "false"}
-  ELSE IF key \in IndexKeys THEN {"zero", "presets"}
-  ELSE IF key = "base_video_format" THEN {"only", "except", "mismatch", "zero"}
+  IF key \in EtpFlagKeys THEN {"true", "false"}
+  ELSE IF key \in FlagKeys THEN {"true", "false", "empty"}
+  ELSE IF key \in IndexKeys THEN {"zero", "presets", "empty"}
+  ELSE IF key = "base_video_format" THEN {"only", "except", "mismatch", "zero", "empty"}
   ELSE IF key \in UncheckedUnknown THEN {"zero", "le1", "le3", "ge4", "two"}
-  ELSE {"only", "except"}
+  ELSE {"only", "except", "empty"}
 
 VS(key, kind, c) ==
   CASE kind = "true"     -> SetVS({<<1, 1>>})
     [] kind = "false"    -> SetVS({<<0, 0>>})
+    [] kind = "empty"    -> SetVS({})
     [] kind = "zero"     -> SetVS({<<0, 0>>})
     [] kind = "presets"  -> SetVS({<<1, 100>>})
     [] kind = "le1"      -> SetVS({<<0, 1>>})
@@ -302,8 +323,18 @@ DeviationUncheckedKey(restr) == \E r \in restr : r.key \in UncheckedKeys
 (* asym flags forced TRUE although not required make the encoder write wavelet_index_ho /     *)
 (* dwt_depth_ho; those values are not checked against the table either                         *)
 
+(* the table whose single restriction is an EMPTY entry for an explicitly coded video value, while the same *)
+(* configuration under the `only` entry for that key (the value it wants) has a header: the empty entry      *)
+(* alone - not the flag, not the index - is what leaves the format without an encoding                       *)
+ExplicitOnly(c, restr) ==
+  /\ Cardinality(restr) = 1
+  /\ \E r \in restr :
+        /\ r.kind = "empty" /\ r.key \in VideoValueKeys
+        /\ DesignOutcome(c, Column(restr), "any") = "unsat"
+        /\ DesignOutcome(c, Column({[r EXCEPT !.vs = VS(r.key, "only", c)]}), "any") = "produced"
+
 (* -------------------------------------------------------------------------- choice machine *)
-(* class "full": the six tiny configurations x every key; "geom": geometry configurations x the derived *)
+(* class "full": the seven tiny configurations x every key; "geom": geometry configurations x the derived *)
 (* keys; "real": the real table (no synthetic column; completed in one step)                           *)
 GeomKeys == FeatureKeys \cup {"source_sampling", "custom_scan_format_flag"}
 KeysOf(class) == IF class = "geom" THEN GeomKeys ELSE AllKeys
@@ -326,6 +357,7 @@ Restriction(i, kind, c) == [key |-> KeySeq[i], kind |-> kind, vs |-> VS(KeySeq[i
 ChooseFirst == /\ stage = 2
                /\ \E i \in 1..Len(KeySeq) : \E kind \in Kinds(KeySeq[i]) :
                     /\ KeySeq[i] \in KeysOf(ch.class)
+                    /\ (kind = "empty" => ch.class = "full")      \* geom pins derived keys: an empty entry never matches
                     /\ ch' = [ch EXCEPT !.restr = {Restriction(i, kind, ch.cfg)}]
                /\ stage' = 3 /\ UNCHANGED out
 
@@ -336,19 +368,25 @@ ChooseSecond == /\ stage = 3
                       /\ LET first == CHOOSE r \in ch.restr : TRUE IN
                          \E i \in (first.idx + 1)..Len(KeySeq) : \E kind \in Kinds(KeySeq[i]) :
                            /\ KeySeq[i] \in KeysOf(ch.class)
+                           /\ (kind = "empty" => ch.class = "full")
                            /\ ch' = [ch EXCEPT !.restr = @ \cup {Restriction(i, kind, ch.cfg)}]
                 /\ stage' = 4 /\ UNCHANGED out
 
 ChoosePattern == /\ stage = 4
                  /\ \E p \in Patterns :
                       \* ordering patterns are combined with single restrictions of class "full" only
-                      /\ (p # "any" => Cardinality(ch.restr) = 1 /\ ch.class = "full")
+                      \* (and not with the "empty" kind nor the all-explicit configuration: their subject is the
+                      \* sequence header, which the ordering of the data units does not touch)
+                      /\ (p # "any" => /\ Cardinality(ch.restr) = 1 /\ ch.class = "full"
+                                       /\ \A r \in ch.restr : r.kind # "empty"
+                                       /\ ch.cfg.name # "hq_explicit")
                       /\ LET c == ch.cfg
                              col == Column(ch.restr) IN
                          out' = [class |-> ch.class, cfg |-> c, restr |-> ch.restr, pattern |-> p, npics |-> 2,
                                  design |-> DesignOutcome(c, col, p),
                                  deviation |-> DeviationUncheckedKey(ch.restr),
-                                 mode_sensitive |-> ModeSensitive(c)]
+                                 mode_sensitive |-> ModeSensitive(c),
+                                 explicit_only |-> ExplicitOnly(c, ch.restr)]
                       /\ ch' = [ch EXCEPT !.pattern = p]
                  /\ stage' = Done
 
@@ -359,6 +397,7 @@ ChooseReal == /\ stage = 1 /\ "real" \in Modes
                    /\ Regular(c.vp, pcm)
                    /\ out' = [class |-> "real", cfg |-> c, restr |-> {}, pattern |-> "real", npics |-> 0,
                               design |-> RealDesign(c), deviation |-> FALSE, mode_sensitive |-> FALSE,
+                              explicit_only |-> FALSE,
                               base |-> b, pert |-> pert]
                    /\ ch' = [ch EXCEPT !.class = "real", !.cfg = c, !.pattern = "real"]
               /\ stage' = Done
